@@ -433,3 +433,5 @@ LEVEL_TEXT = ("Machine-checked Lean 4 theorems about the executable model of the
               "with the oracle and model comparison.")
 LEVEL_NOTE = ("WHOLE FILE (Props/C02File.lean, theorems C07_file_*): after ANY successful readFull every data window has curves of one length, max(d, c) of them, declared slots first in order, surplus columns after them, missing ones NaN of the common length (C07_file_rect, C07_file_curves); binding of column j to curve j for uniform token matrices (C07_file_binding, C07_file_column, C07_file_binding_plain). Metadata of declared curves is untouched because the model's Slot.declared j refers to the existing curve object; names of the "
               "surplus curves (UNKNOWN:n suffixes) belong to C13. Float parsing is a parameter of the model.")
+
+RULE = RULE + ("; ALSO (fifth session): documents `negative-exponent` (cells such as 3.0100E-04) and `hyphen-tokens` (every line holds a negative number, some a token such as 15-9)")
